@@ -19,6 +19,7 @@ from __future__ import annotations
 
 import hashlib
 import re
+from fractions import Fraction
 
 import fpy2 as fp
 import titanfp.fpbench.fpcast as fpc
@@ -26,7 +27,7 @@ from fpy2.ast.fpyast import ListTypeAnn, RealTypeAnn
 from fpy2.backend.fpc import FPCoreCompileError
 from titanfp.fpbench import fpcparser
 
-from vlib import c12_gen, c12_oracle as orc, progen
+from vlib import c12_coregen as cg, c12_gen, c12_oracle as orc, progen
 from vlib.load import load_module, unload
 from vlib.runner import Result, h64
 
@@ -351,11 +352,90 @@ def decode_args(enc):
 
 
 # ---------------------------------------------------------------------------------------------------------
+# second layer: FPCore text that does not come from the compiler, read back and run against two references
+
+CORE_ARGS_SMALL = [1.5, 2.0, -0.75, 3.0, 0.5, 2.5, -1.0, 4.0, 0.25, 1.0, 0.0, -2.25, 6.0]
+CORE_ARGS_F64 = CORE_ARGS_SMALL + [0.1, 3.3, 1e10, -0.7, 1.0000001, 12345.678, 1e-8]
+
+HAND_CORES = [
+    ('(FPCore (x y) (let ([x y] [y x]) (- x y)))', 2),
+    ('(FPCore (x y) (let* ([x y] [y x]) (- x y)))', 2),
+    ('(FPCore (x y) (let ([x (+ x y)] [y (- x y)]) (+ (* x 10) y)))', 2),
+    ('(FPCore (x y z) (let ([x y] [y z] [z x]) (+ (* x 100) (+ (* y 10) z))))', 3),
+    ('(FPCore (x y) (while (> k 0) ([k 3 (- k 1)] [a x (+ a b)] [b y (- a b)]) (array a b)))', 2),
+    ('(FPCore (x y) (while* (> k 0) ([k 3 (- k 1)] [a x (+ a b)] [b y (- a b)]) (array a b)))', 2),
+    ('(FPCore (x y) (for ([i 3]) ([a x (+ a b)] [b y (- a (* b 0.5))]) (- a b)))', 2),
+    ('(FPCore (x y) (for* ([i 3]) ([a x (+ a b)] [b y (- a (* b 0.5))]) (- a b)))', 2),
+    ('(FPCore (x y) (! :precision binary32 (+ x (! :round toZero (* x y)))))', 2),
+    ('(FPCore (x y) :precision binary32 :round toPositive (+ (/ x 3) (! :round toNegative (/ y 3))))', 2),
+    ('(FPCore (x y) (! :precision (float 5 12) :round toZero (let ([a (/ x 3)]) (! :precision binary16 (* a (/ y 7))))))', 2),
+    ('(FPCore (x y) (if (< x y) (let ([x y] [y x]) (/ x y)) (let* ([x y] [y x]) (/ x (+ y 1)))))', 2),
+]
+
+
+def check_core(res: Result, text, nargs, inputs, features, origin):
+    try:
+        core = fpcparser.compile(text)[0]
+    except Exception as e:
+        raise RuntimeError(f'generated FPCore text does not parse: {e}\n{text}')
+    res.count('core-programs')
+    for f in sorted(features):
+        res.cls('cf:' + f)
+    try:
+        g = fp.Function.from_fpcore(core, ignore_unknown=True)
+    except Exception as e:
+        # the reader refusing a core is not a wrong translation
+        r = f'reader-refused:{type(e).__name__}'
+        res.skip(r)
+        if res.skipped[r] <= 2:
+            res.sample({'reader_refused': text, 'error': f'{type(e).__name__}: {str(e)[:200]}'})
+        return
+    sh = hashlib.blake2b(text.encode(), digest_size=8).hexdigest()
+    nt = bool(features & {'let-multi', 'let*-multi', 'while', 'while*', 'for', 'for*', 'partial-annotation'})
+    for idx, args in enumerate(inputs):
+        res.case()
+        case = {'core': text, 'args': progen_encode(args), 'origin': origin}
+        ref = cg.ref_eval(core, args)
+        ta = orc.run_titan(core, [], args)
+        if ref[0] != 'value' or ta[0] != 'value':
+            res.skip('core-no-verdict:' + ('reference-open' if ref[0] != 'value' else 'titanfp-' + ta[0]))
+            continue
+        if ref[1] != ta[1]:
+            # the standard-based reference and titanfp disagree: no verdict either way
+            res.count('disagreements_checked')
+            res.cls('core:references-disagree')
+            if res.classes['core:references-disagree'] <= 2:
+                res.sample({'references_disagree': case, 'reference': ref[1], 'titanfp': ta[1]})
+            continue
+        if nt:
+            res.nontrivial((sh, idx))
+            res.cls('nt:core')
+        got = orc.run_fpy(g, args)
+        if got[0] == 'value' and got[1] == ref[1]:
+            res.cls('core:agree')
+            continue
+        # name the root cause: which single wrong reading of the standard reproduces the reader's result?
+        why = ''
+        if got[0] == 'value':
+            for alt in cg.ALTS:
+                r = cg.ref_eval(core, args, alt=alt)
+                if r[0] == 'value' and r[1] == got[1]:
+                    why = '/' + alt
+                    break
+            res.fail('core-readback-differs' + why, case, expected=ref[1], got=got[1])
+        elif got[0] == 'raise':
+            res.fail(f'core-readback-raises:{got[1]}', case, expected=ref[1], got=f'{got[1]}: {got[2]}')
+        else:
+            res.fail('core-readback-diverges', case, expected=ref[1], got='CPU budget exceeded')
+
+
+# ---------------------------------------------------------------------------------------------------------
 # templates: one per clause of the statement, parameterised over contexts
 
 T_CTX_FLOAT = ['fp.FP16', 'fp.FP32', 'fp.IEEEContext(5, 16, fp.RM.RTZ)', 'fp.IEEEContext(4, 8, fp.RM.RTP)',
                'fp.IEEEContext(8, 32, fp.RM.RTN)', 'fp.IEEEContext(3, 6, fp.RM.RAZ)', 'fp.IEEEContext(6, 20, fp.RM.RNA)',
-               'fp.IEEEContext(11, 64, fp.RM.RTZ)', 'fp.FP128']
+               'fp.IEEEContext(11, 64, fp.RM.RTZ)', 'fp.FP128', 'fp.IEEEContext(8, 16, fp.RM.RNE)', 'fp.IEEEContext(11, 32, fp.RM.RTZ)',
+               'fp.IEEEContext(5, 32, fp.RM.RNA)', 'fp.IEEEContext(8, 64, fp.RM.RTP)']
 T_CTX_ANY = T_CTX_FLOAT + ['fp.INTEGER', 'fp.MPFixedContext(-1, fp.RM.RNA, enable_neg_zero=False)', 'fp.FixedContext(True, -2, 8, fp.RM.RTZ, fp.OV.SATURATE)',
                            'fp.FixedContext(True, -4, 12, fp.RM.RNE, fp.OV.SATURATE)', 'fp.FixedContext(True, -3, 10, fp.RM.RTP, fp.OV.OVERFLOW)',
                            'fp.REAL']
@@ -604,6 +684,8 @@ def shards(tier, seed):
     out = [('gen', i, per, seed, tier) for i in range(n_shards)]
     out += [('hyp', i, 120 if tier == 'thorough' else 12, seed, tier) for i in range(16 if tier == 'thorough' else 4)]
     out += [('tmpl', k, seed, tier) for k in range(len(TEMPLATES))]
+    out += [('core', i, 400 if tier == 'thorough' else 60, seed, tier) for i in range(32 if tier == 'thorough' else 8)]
+    out.append(('corehand', seed, tier))
     return out
 
 
@@ -624,6 +706,22 @@ def run_shard(shard):
             prog = c12_gen.gen_program(ch, profile_for(i))
             inputs = [c12_gen.gen_inputs(ch, prog) for _ in range(N_INPUTS)]
             check_program(res, prog.src, prog.sizes(), inputs, prog.features, f'gen:{seed}:{i}:{j}')
+        return res
+    if kind == 'core':
+        _, i, per, seed, tier = shard
+        for j in range(per):
+            ch = progen.RandChooser(h64(seed, 'C12core', i, j))
+            text, nargs, feats = cg.gen_core(ch)
+            pool = CORE_ARGS_SMALL if 'core-props' in feats else CORE_ARGS_F64
+            inputs = [[ch.choice(pool) for _ in range(nargs)] for _ in range(3)]
+            check_core(res, text, nargs, inputs, feats, f'core:{seed}:{i}:{j}')
+        return res
+    if kind == 'corehand':
+        _, seed, tier = shard
+        ch = progen.RandChooser(h64(seed, 'C12corehand'))
+        for text, nargs in HAND_CORES:
+            inputs = [[ch.choice(CORE_ARGS_SMALL) for _ in range(nargs)] for _ in range(4)]
+            check_core(res, text, nargs, inputs, {'let-multi'}, 'core:hand')
         return res
     if kind == 'hyp':
         import hypothesis
@@ -652,6 +750,10 @@ def run_shard(shard):
 
 def replay(case):
     res = Result()
+    if 'core' in case:
+        args = decode_args(case['args'])
+        check_core(res, case['core'], len(args), [args], {'let-multi'}, case.get('origin', 'replay'))
+        return [f for fl in res.failures.values() for f in fl]
     check_program(res, case['src'], case.get('sizes', []), [decode_args(case['args'])] if case.get('args') is not None else [],
                   set(), case.get('origin', 'replay'), unsafe_int_cast=case.get('unsafe_int_cast', True))
     return [f for fl in res.failures.values() for f in fl]
@@ -680,10 +782,22 @@ def selftest():
     assert orc.structural_check(fx.events['main'], orc.core_events(right)) == ('ok', None)
     assert orc.structural_check(fx.events['main'], orc.core_events(swapped))[1] == 'fixed-arg-order'
     # titanfp glue: exact argument conversion and result denotation
-    from fractions import Fraction
     c = fpcparser.compile('(FPCore (x y) (array (+ x y) (< x y) (- 0 x)))')[0]
     r = orc.run_titan(c, [], [0.5, 0.25])
     assert r == ('value', ('S', Fraction(3, 4), False, Fraction(-1, 2))), r
     assert c12_gen.ieee_representable(65504.0, 5, 16) and not c12_gen.ieee_representable(65505.0, 5, 16)
     assert c12_gen.ieee_representable(2.0 ** -24, 5, 16) and not c12_gen.ieee_representable(2.0 ** -25, 5, 16)
     assert not c12_gen.ieee_representable(0.1, 8, 32) and c12_gen.ieee_representable(1.5, 3, 6)
+    # reference evaluator of the core layer: hand-computed values (let parallel, let* sequential, loops, inheritance)
+    def rv(text, args, alt=None):
+        return cg.ref_eval(fpcparser.compile(text)[0], args, alt)
+    assert rv('(FPCore (x y) (let ([x y] [y x]) (- x y)))', [1.0, 4.0]) == ('value', Fraction(3))
+    assert rv('(FPCore (x y) (let* ([x y] [y x]) (- x y)))', [1.0, 4.0]) == ('value', '+0')
+    assert rv('(FPCore (a b) (let ([a (+ a b)] [b (- a b)]) (+ (* a 10) b)))', [5.0, 2.0]) == ('value', Fraction(73))
+    assert rv('(FPCore (a b) (let ([a (+ a b)] [b (- a b)]) (+ (* a 10) b)))', [5.0, 2.0], 'let-sequential') == ('value', Fraction(75))
+    assert rv('(FPCore (x y) (while (> k 0) ([k 2 (- k 1)] [a x (+ a b)] [b y (- a b)]) (array a b)))', [1.0, 2.0]) == ('value', ('S', Fraction(2), Fraction(4)))
+    assert rv('(FPCore (x y) (while* (> k 0) ([k 2 (- k 1)] [a x (+ a b)] [b y (- a b)]) (array a b)))', [1.0, 2.0]) == ('value', ('S', Fraction(4), Fraction(3)))
+    assert rv('(FPCore (x y) (for ([i 2]) ([a x (+ a i)] [b y (* a 2)]) (array a b)))', [1.0, 5.0]) == ('value', ('S', Fraction(2), Fraction(2)))
+    # 1/3 to binary32 toward zero = 11184810 * 2^-25; without inheritance it would be rounded to binary64
+    assert rv('(FPCore (x) (! :precision binary32 (! :round toZero (/ x 3))))', [1.0]) == ('value', Fraction(11184810, 2 ** 25))
+    assert rv('(FPCore (x) (! :precision binary32 (! :round toZero (/ x 3))))', [1.0], 'annotation-no-inherit')[1] != Fraction(11184810, 2 ** 25)
